@@ -40,7 +40,7 @@ RULE = ("cases come from four structured generators (names at the 63/255 limits,
         "one-octet/one-escape scope; distinct = distinct canonical case; non-trivial = the implementation returned a value, "
         "or an error class not yet seen for that case kind")
 
-MODEL_OPS = (1, 4, 5, 6, 7, 8, 9, 10, 11, 12, 13, 14, 15, 16, 17)
+MODEL_OPS = (1, 4, 5, 6, 7, 8, 9, 10, 11, 12, 13, 14, 15, 16, 17, 18)
 
 
 # ------------------------------------------------------------------ small helpers
@@ -373,7 +373,33 @@ def my_escape(rng, labels, style=None):
     return b".".join(out)
 
 
+TOK_DELIMS = b' \t\n;()"'
+TOK_TAILS = [b"", b"", b" 300 IN A", b"\n", b"\tx", b";comment", b"(", b")", b'"q"', b" ", b"\nnext"]
+
+
+def tok_modellable(t):
+    """op 18 (Tokenizer.get / get_name) is modelled for ASCII text whose first non-blank character
+    exists and is not a delimiter (the token is then an identifier)"""
+    if any(c >= 128 for c in t):
+        return False
+    s = t.lstrip(b" \t")
+    return len(s) > 0 and s[0] not in TOK_DELIMS
+
+
 def text_cases(ctx, n_rt, n_rand):
+    rng = ctx.rng
+    for kind, case in text_cases0(ctx, n_rt, n_rand):
+        yield kind, case
+        t = bytes(case[1])
+        lead = rng.choice([b"", b"", b" ", b"\t "])
+        for tail in (rng.choice(TOK_TAILS), rng.choice(TOK_TAILS)):
+            tt = lead + t + tail
+            if tok_modellable(tt):
+                ctx.count("text:tokenizer")
+                yield "tok_name", [18, tt, case[2]]
+
+
+def text_cases0(ctx, n_rt, n_rand):
     rng = ctx.rng
     # (a) round-trip stream
     for _ in range(n_rt):
@@ -970,6 +996,15 @@ def oracle(ctx, kind, case, out):
                     fail("from_wire(to_wire(n, origin)) != n + origin")
             except Exception as e:  # noqa
                 fail("to_wire output does not parse: " + type(e).__name__)
+    elif op == 18:
+        for part in out:
+            if isinstance(part, Err) and (bad_exc(op, part) or part.code == 900):
+                fail("unexpected exception " + part.text + " from the tokenizer")
+                break
+        if not isinstance(out[1], Err):
+            lp = limit_problem(out[1])
+            if lp:
+                fail("produced name breaks the DNS limits: " + lp)
     elif op == 7:
         for k, v in out[1]:
             if v > 0x3FFF or v < 0:
